@@ -7,6 +7,8 @@ CONSTANTS
   MaxAccts = 2
   AttemptUsers = {"alice", "bob"}
   Lens = {1, 8, 19, 21, 40}
+  NulLens = {1, 19, 20, 21, 32}
+  PadLens = {1, 12}
 INIT Init
 NEXT Fill
 INVARIANTS TypeOK
